@@ -21,8 +21,14 @@ def pre_build(ctx):
     E.gen_c12()
 
 
-def md_val(code):
-    return {"k": code, "n": {"l": [code, str(code)]}} if code % 2 else {"k": code}
+def md_val(code, flip=False):
+    """Equal codes give equal values; with `flip` the same value is built with its keys inserted in the opposite order at the
+    top level and inside the nested dictionary (two writing scripts, two sessions): still the same metadata value."""
+    if code % 2 == 0:
+        return {"k": code}
+    if flip:
+        return {"n": {"m": code, "l": [code, str(code)]}, "k": code}
+    return {"k": code, "n": {"l": [code, str(code)], "m": code}}
 
 
 def run_e2e(args):
@@ -34,9 +40,9 @@ def run_e2e(args):
         ds = sp.mk(root, fmt=a["fmt"], comp=a["comp"], eps=a["eps"])
         v = 0
         with ds.filler() as f:
-            for code in a["groups"]:
+            for gi, code in enumerate(a["groups"]):
                 for _ in range(a["eps"]):
-                    f.write_example(values=sp.val(v), split="train", custom_metadata=md_val(code)); v += 1
+                    f.write_example(values=sp.val(v), split="train", custom_metadata=md_val(code, flip=bool(gi % 2))); v += 1
             f.write_example(values=sp.val(10 ** 6), split="test")
         ds = Dataset(root)
         infos = list(ds.shard_info_iterator("train"))
